@@ -112,7 +112,7 @@ def run(tier):
         log("  %s: TLC %d states (%.1fs), %d reference sequences replayed, %d bad (%.1fs)" % (
             name, r.distinct, r.wall, n, bad, time.time() - t0))
     t0 = time.time()
-    fz = fuzz_cases(1200 if tier == "quick" else 20000, rnd)
+    fz = fuzz_cases(1200 if tier == "quick" else 100000, rnd)
     und = [{"mode": "undecoded"} for _ in range(6)]
     n, bad = sidecheck.run_cases("C16", "fuzz", fz + und, violations, distinct)
     replayed += n
